@@ -51,7 +51,7 @@ def numeric_grammar(rnd):
                        ["", "-"]])
     pad = pick(rnd, ["", "0", "00", "<zeros>", "00", "0", "<zeros>", ""])
     body = pick(rnd, ["<lead><digits>", "<lead><digits>", "<digit><digits>", "<digits1>", "<digit>", "<digit><digit>",
-                      "<lead><digit>"])
+                      "<lead><digit>", "<digit><digit><digit>", "<digit><digit><digit><digit>", "<digit><digit><digit>"])
     suffix = "x" if chance(rnd, 0.08) else ""
     alt = ("<sign>" if signs is not None else "") + pad + body + suffix
     alts = [alt]
